@@ -42,7 +42,7 @@ def ruleset_for(case, level):
     mn = gen_flow.rules_for(case, "minimal")
     have = {json.dumps(r.to_json(), sort_keys=True) for r in mn.rules}
     ex = gen_flow.rules_for(case, "extended")
-    extra = [r for r in ex.rules if json.dumps(r.to_json(), sort_keys=True) not in have and r.side == side and r.operation == op]
+    extra = [r for r in ex.rules if json.dumps(r.to_json(), sort_keys=True) not in have and r.side == side and r.operation.startswith(op)]
     return ts.RuleSet(mn.rules + extra)
 
 
@@ -131,8 +131,10 @@ def judge(item):
                 kind = ss[0].kind
                 # smallest set of relaxations that would justify the flow; each one is a mechanism of its own
                 found = None
-                for relax in (("positions",), ("callee",), ("field",), ("positions", "callee"), ("positions", "field"),
-                              ("callee", "field"), ("positions", "callee", "field")):
+                # explanations that keep the rule-designated expression come first (that is how lian computes a sink's tag);
+                # "another operand / the receiver counts" is the last resort
+                for relax in (("callee",), ("field",), ("callee", "field"), ("positions",), ("positions", "callee"),
+                              ("positions", "field"), ("positions", "callee", "field")):
                     c = closure(tuple(r for r in relax if r != "positions"))
                     if depends(c, ss, loc, all_positions="positions" in relax):
                         found = relax
